@@ -80,6 +80,9 @@ def expr_sql(e, colref, outer_ref, rs):
         return outer_ref(e["i"])
     if op == "lit":
         return lit_sql(e["v"], e.get("t"))
+    if op == "param":
+        # C41: a placeholder; "ph" = its SQL text ($1 / $name, possibly wrapped in a CAST giving the type)
+        return e["ph"]
     if op == "bin":
         return f"({X(e['l'])} {BINOPS[e['f']]} {X(e['r'])})"
     if op == "un":
@@ -218,9 +221,9 @@ def plan_sql(p, rs, outer_ref):
             sel = ", ".join(f"{ref(i+1)} AS {out(i+1)}" for i in range(len(cs)))
             base, cols = f"SELECT {sel} FROM {frm}", [out(i + 1) for i in range(len(cs))]
         if p["fetch"] >= 0:
-            base += f" LIMIT {p['fetch']}"
-        if p["skip"] > 0:
-            base += f" OFFSET {p['skip']}"
+            base += f" LIMIT {p.get('fetch_sql', p['fetch'])}"      # fetch_sql / skip_sql: placeholder text (C41)
+        if p["skip"] > 0 or "skip_sql" in p:
+            base += f" OFFSET {p.get('skip_sql', p['skip'])}"
         return base, cols
     raise ValueError(op)
 
